@@ -1,1 +1,202 @@
-fn main() { let _ = lumina_node::verif::daser::VMockDaser::new; }
+//! C33 — Data sampling marks a block sampled only after full success.   (engine E3 + E1)
+//!
+//! Real `Daser` worker + `InMemoryStore` (behind a logging `Store` wrapper) + mocked `P2p`,
+//! see `shared/daser_sys.rs`.  Oracle (from the statement): when a `GetShwapCid` is sent the
+//! store's sampling metadata of that height already holds the CIDs of all chosen shares;
+//! chosen shares are distinct, inside the square, min(w², 16) many; `mark_as_sampled(h)` /
+//! `get_sampled_ranges ∋ h` only after every chosen share of one sampling of h was answered
+//! with a valid sample (and none timed out).  Also checked here: the Daser half of C35.
+#[path = "../shared/daser_sys.rs"]
+mod daser_sys;
+
+use daser_sys::*;
+use lumina_node::verif::daser::random_indexes;
+use lv_core::*;
+use serde_json::json;
+use std::sync::Mutex;
+use std::time::Duration;
+
+const PROPS: &[&str] = &["C33", "C35"];
+
+/// E1 part: `random_indexes` for every width (the system part only has even widths <= 64).
+fn eval_random_indexes(w: u16, max: usize, rep: &mut Report) {
+    let want = (w as usize * w as usize).min(max);
+    for round in 0..8u32 {
+        let key = fnv64(format!("ri/{w}/{max}/{round}").as_bytes());
+        let case = json!({"random_indexes": {"width": w, "max": max}});
+        match guard(|| random_indexes(w, max)) {
+            Err(p) => {
+                rep.case(key, "indexes:panic", true);
+                rep.violation("random-indexes-panic", format!("random_indexes({w},{max}) panicked: {p}"), case);
+            }
+            Ok(set) => {
+                let class = if w as usize * w as usize <= max { "indexes:whole-square" } else { "indexes:random-subset" };
+                rep.case(key, class, w as usize * w as usize > max);
+                if set.len() != want {
+                    rep.violation(
+                        "chosen-shares-wrong-count",
+                        format!("random_indexes({w},{max}) returned {} shares, expected {want}", set.len()),
+                        case.clone(),
+                    );
+                }
+                if let Some(bad) = set.iter().find(|(r, c)| *r >= w || *c >= w) {
+                    rep.violation("chosen-share-outside-square", format!("random_indexes({w},{max}) returned {bad:?}"), case);
+                }
+            }
+        }
+    }
+}
+
+fn cfgs(quick: bool) -> Vec<(Cfg, Explore)> {
+    let cap = |s: u64| Duration::from_secs(s);
+    let mut v = vec![];
+    // 1. one block of width 2: every answer order x every success/timeout assignment (4!·2^4)
+    v.push((
+        Cfg {
+            name: "w2-exhaustive".into(),
+            widths: vec![2],
+            old: 0,
+            initial: vec![(1, 1)],
+            pre_sampled: vec![],
+            limit: 1,
+            allowance: 0,
+            horizon: 8,
+            menu: Menu::answers_only(),
+            preset_highest: None,
+            preset_backlog: 0,
+        },
+        Explore { bound: 8, wall_cap: cap(120), max_execs: 1_000_000 },
+    ));
+    // 2. two blocks of width 2 sampled concurrently, every outstanding request answerable
+    v.push((
+        Cfg {
+            name: "w2x2-concurrent".into(),
+            widths: vec![2, 2],
+            old: 0,
+            initial: vec![(1, 2)],
+            pre_sampled: vec![],
+            limit: 2,
+            allowance: 0,
+            horizon: 12,
+            menu: Menu::answers_only(),
+            preset_highest: None,
+            preset_backlog: 0,
+        },
+        Explore { bound: if quick { 2 } else { 3 }, wall_cap: cap(if quick { 20 } else { 240 }), max_execs: 2_000_000 },
+    ));
+    // 3. one block of width 4 (16 samples = the whole square)
+    v.push((
+        Cfg {
+            name: "w4-single".into(),
+            widths: vec![4],
+            old: 0,
+            initial: vec![(1, 1)],
+            pre_sampled: vec![],
+            limit: 1,
+            allowance: 0,
+            horizon: 20,
+            menu: Menu { all_positions: !quick, ..Menu::answers_only() },
+            preset_highest: None,
+            preset_backlog: 0,
+        },
+        Explore { bound: if quick { 3 } else { 2 }, wall_cap: cap(if quick { 20 } else { 240 }), max_execs: 2_000_000 },
+    ));
+    // 4. widths 8..64 (16 of many), store growing
+    v.push((
+        Cfg {
+            name: "wide-8-16-32-64".into(),
+            widths: vec![8, 16, 32, 64],
+            old: 0,
+            initial: vec![(1, 1)],
+            pre_sampled: vec![],
+            limit: 1,
+            allowance: 1,
+            horizon: 90,
+            menu: Menu { all_positions: false, insert_head: true, ..Menu::answers_only() },
+            preset_highest: None,
+            preset_backlog: 0,
+        },
+        Explore { bound: if quick { 1 } else { 2 }, wall_cap: cap(if quick { 20 } else { 240 }), max_execs: 2_000_000 },
+    ));
+    // 5. store growing and pruned, peers lost and regained, clock advancing
+    v.push((
+        Cfg {
+            name: "growing-pruned".into(),
+            widths: vec![2, 2, 2, 4],
+            old: 0,
+            initial: vec![(1, 2)],
+            pre_sampled: vec![],
+            limit: 2,
+            allowance: 1,
+            horizon: 72,
+            menu: Menu {
+                all_positions: false,
+                timeouts: true,
+                insert_head: true,
+                backfill: false,
+                reconnect: true,
+                prune: vec![1, 2],
+                report_highest: vec![],
+                clock: true,
+            },
+            preset_highest: None,
+            preset_backlog: 0,
+        },
+        Explore { bound: if quick { 2 } else { 3 }, wall_cap: cap(if quick { 30 } else { 400 }), max_execs: 4_000_000 },
+    ));
+    v
+}
+
+fn main() {
+    let ctx = Ctx::from_args("C33");
+    let mut rep = Report::new();
+    let stats: Stats = Mutex::new(Default::default());
+    if let Some(case) = ctx.replay_case() {
+        if let Some(ri) = case.get("random_indexes") {
+            eval_random_indexes(ri["width"].as_u64().unwrap() as u16, ri["max"].as_u64().unwrap() as usize, &mut rep);
+        } else if let Err(e) = replay(&case, PROPS, &mut rep) {
+            machinery_error(&ctx.id, &e);
+        }
+    } else {
+        let mut widths: Vec<u16> = (1..=64).collect();
+        widths.extend([65, 127, 128, 255, 256, 512, 1024, 4096, u16::MAX]);
+        for w in widths {
+            for max in [16usize] {
+                eval_random_indexes(w, max, &mut rep);
+            }
+        }
+        for (cfg, ex) in cfgs(ctx.quick()) {
+            let t = std::time::Instant::now();
+            if let Err(e) = explore_cfg(&cfg, &ex, PROPS, &stats, &mut rep) {
+                machinery_error(&ctx.id, &e);
+            }
+            eprintln!("cfg {} done in {:.1}s (evaluations so far {})", cfg.name, t.elapsed().as_secs_f64(), rep.evaluations);
+        }
+        merge_stats(&stats, &mut rep);
+    }
+    finish(
+        &ctx,
+        rep,
+        Spec {
+            rule: "E1: random_indexes(w,16) for w in 1..=64 ∪ {65,127,128,255,256,512,1024,4096,65535}, 8 calls each. E3: real Daser over InMemoryStore+mocked P2p, executions = sequences of environment events (answer outstanding sample request k with a valid sample / RequestTimedOut, insert next head, WantToPrune/remove, disconnect/reconnect, advance clock 61 s / 5 h), choice 0 = answer oldest request successfully; cfg w2-exhaustive: all 4!·2^4 answer orders x success/timeout assignments of one width-2 block; w2x2-concurrent: two width-2 blocks in flight, <=2 (quick) / 3 (thorough) deviations over all outstanding positions; w4-single: 16 samples, <=3 deviations over oldest/newest position (quick) / <=2 over all positions (thorough); wide-8-16-32-64: <=1 / 2 deviations; growing-pruned: 4 blocks, limit 2+1, <=2 / 3 deviations. An execution is non-trivial when it deviates from the all-success default; distinct = distinct choice sequences (states = distinct property-level observation traces)",
+            assumptions: &[
+                "wall clock Time::now() is not seamed: header times are 1 h (inside) / 6 h (outside) old against a 4 h sampling window",
+                "the mocked P2p stands for bitswap: an answer is either a sample that decodes and verifies against the header's DAH (checked when the fixture builds it) or RequestTimedOut; undecodable data never reaches the Daser (ShwapMultihasher rejects it earlier)",
+                "share identities chosen by thread_rng are not part of the oracle (only counts, distinctness, bounds, set equalities)",
+                "the pruner follows its protocol: it removes a height only after WantToPrune(h) was granted",
+            ],
+            required_classes: &[
+                "completed",
+                "indexes:whole-square",
+                "indexes:random-subset",
+                "seen:block-marked-sampled",
+                "seen:block-timed-out",
+                "seen:chosen:whole-square",
+                "seen:chosen:16-of-many",
+                "seen:prune-refused",
+                "seen:prune-granted",
+            ],
+            exhaustive: true,
+        },
+    );
+}
